@@ -157,7 +157,7 @@ def check_input(query, doc, sh=None):
         if len(P) > 1:
             sh.nontrivial += 1
         if capped:
-            sh.bump("inputs_capped")
+            sh.bump("inputs_capped_not_exhaustive")
         sh.bump("distinct_leaf_results", len(results))
         sh.bump("permitted_orderings", len(P))
     out = []
@@ -222,7 +222,7 @@ def run_shard(desc):
             sh.evaluations += execs
             sh.nontrivial += 1
             if capped:
-                sh.bump("inputs_capped")
+                sh.bump("inputs_capped_not_exhaustive")
             if invalid is not None:
                 sh.violation(violation("invalid-ordering", {"query": c["query"], "doc": impl.jsonable(c["data"]),
                                                             "choices": invalid[0]}, {"permitted_orderings": len(P)},
